@@ -193,6 +193,15 @@ pub fn directed() -> Vec<(&'static str, &'static str)> {
         ("literal-in-function-twice", "functie f() { stel s = \"abc\"; s[0] = \"x\"; s } [f(), f()]"),
         ("literal-twice", "stel a = \"abc\"; stel b = \"abc\"; a[0] = \"x\"; [a, b, \"abc\"]"),
         ("failed-write-unchanged", "stel a = [1, 2, 3]; stel e = 0; a"),
+        // what a read hands out is a value of its own: changing it changes neither the sequence it came from nor what
+        // the next read of the same position (or of an equal character elsewhere) yields
+        ("read-character-then-modify-it", "stel s = \"abc\"; stel c = s[0]; c[0] = \"z\"; [s, c, s[0], \"abc\"[0], \"xa\"[1]]"),
+        ("read-character-twice-then-modify-one", "stel s = \"aé\"; stel p = s[1]; stel q = s[1]; p[0] = \"x\"; [p, q, s, s[1], \"é\"[0]]"),
+        ("read-character-in-loop-and-modify", "stel s = \"aaa\"; stel uit = []; stel i = 0; zolang i < 3 { stel c = s[i]; als i == 1 { c[0] = \"b\" }; uit = [uit, c]; i += 1 }; [uit, s]"),
+        ("array-literal-in-function-twice", "functie f() { stel t = [0, 0]; t[0] = t[0] + 5; t[1] += 1; t } [f(), f(), f()]"),
+        ("array-literal-in-loop", "stel uit = []; stel i = 0; zolang i < 3 { stel t = [1.5, ja, 7]; t[2] = t[2] * 2; t[1] = nee; uit = [uit, t]; i += 1 }; uit"),
+        ("nested-array-literal-in-function-twice", "functie f() { stel t = [[1], [2, 3]]; stel r = t[0]; r[0] = r[0] + 10; t } [f(), f()]"),
+        ("empty-array-literal-twice", "functie f() { [] } stel a = f(); stel b = f(); [lengte(a), lengte(b), a, b]"),
         ("nested-arrays", "stel a = [[1, 2], [3]]; stel r = a[1]; r[0] = 4; [a, lengte(a), lengte(a[0])]"),
         ("string-in-array", "stel a = [\"hé\", \"💖\"]; stel t = a[0]; [lengte(t), t[1], lengte(a)]"),
         ("array-of-arrays-alias", "stel rij = [0, 0]; stel m = [rij, rij]; stel r = m[0]; r[1] = 5; m"),
